@@ -60,7 +60,7 @@ func isSortCallOn(in ssa.Instruction, v func(ssa.Value) bool) bool {
 			if !sortFuncs[n2] || len(sc.Common().Args) == 0 || !DerivesLocal(sc.Common().Args[0], func(x ssa.Value) bool { return x == ssa.Value(prm) }) {
 				continue
 			}
-			t, _ := PathAvoiding(h, h.Blocks[0].Instrs[0], func(x ssa.Instruction) bool { _, isRet := x.(*ssa.Return); return isRet }, func(x ssa.Instruction) bool { return x == ssa.Instruction(sc) }, nil)
+			t, _ := PathAvoiding(h, nil, func(x ssa.Instruction) bool { _, isRet := x.(*ssa.Return); return isRet }, func(x ssa.Instruction) bool { return x == ssa.Instruction(sc) }, nil)
 			if t == nil {
 				return true
 			}
